@@ -91,6 +91,57 @@ def run(ctx):
             ob('R10.1').run(fm, '%s.%s forwards to %s' % (cname, meth, fn), th3, lambda v: decide_equal(v[0], v[1]),
                             opts={'presign': [nonzero(O)]})
 
+    # ---------------------------------------------------------------- wrappers hand every argument on unchanged (all five classes,
+    # falsy values included: an explicit origin 0 is not "no origin", sy = 0 is not "sy not given")
+    def mk_any(it, cname):
+        if cname == 'Arc':
+            return sym_arc(it, 'A', True, False)
+        if cname == 'Path':
+            return it.construct('path.Path', it.construct('path.Line', *cpoints(2, 'L')))
+        return it.construct('path.' + cname, *cpoints(dict(BEZ)[cname]))
+    ZERO = Rat.const(0)
+    for cname in [c for c, _ in BEZ] + ['Arc', 'Path']:
+        for meth, fn, args, kw, want in (
+                ('rotated', 'rotate', [D], {'origin': ZERO}, {'degs': D, 'origin': ZERO}),
+                ('rotated', 'rotate', [D], {}, {'degs': D, 'origin': None}),
+                ('rotated', 'rotate', [D, O], {}, {'degs': D, 'origin': O}),
+                ('translated', 'translate', [ZERO], {}, {'z0': ZERO}),
+                ('scaled', 'scale', [SX], {'sy': ZERO}, {'sx': SX, 'sy': ZERO, 'origin': ZERO}),
+                ('scaled', 'scale', [SX], {}, {'sx': SX, 'sy': None, 'origin': ZERO}),
+                ('scaled', 'scale', [SX, SY, O], {}, {'sx': SX, 'sy': SY, 'origin': O})):
+            fm = mdl.func('path.%s.%s' % (cname, meth))
+            ffn = mdl.func('path.' + fn)
+            got = {}
+
+            def fhook(it, a, k, got=got, ffn=ffn):
+                got['curve'] = a[0]
+                got['args'] = bind_args(it, ffn, a, k, drop_self=False)
+                return 'RESULT'
+
+            def th_w(it, cname=cname, meth=meth, fn=fn, args=args, kw=kw, got=got, fhook=fhook):
+                got.clear()
+                seg = mk_any(it, cname)
+                it.call_hooks['path.' + fn] = fhook
+                r = it.call_method(seg, meth, *args, **kw)
+                return r, seg, dict(got)
+
+            def judge_w(v, want=want, ffn=ffn):
+                r, seg, got = v
+                if r != 'RESULT' or got.get('curve') is not seg:
+                    return False, 'the wrapper does not return %s(self, ...)' % ffn.name
+                names = ffn.params()[1:]
+                for nm in names:
+                    exp = want.get(nm)
+                    have = got['args'].get(nm)
+                    if exp is None:
+                        if have is not None:
+                            return False, 'argument %s arrives as %s although it was not given' % (nm, short(have, 30) if isinstance(have, Rat) else have)
+                    elif have is None or not to_rat(have).equals(exp):
+                        return False, 'argument %s = %s arrives as %s' % (nm, short(exp, 20), short(have, 30) if isinstance(have, Rat) else have)
+                return True, ''
+            ob('R10.1').run(fm, '%s.%s(%s) hands its arguments on unchanged' % (cname, meth, ', '.join([short(a_, 10) for a_ in args] + ['%s=%s' % (k_, short(v_, 10)) for k_, v_ in kw.items()])),
+                            th_w, judge_w, allowed_raises=('AssertionError',), opts=arc_opts(mdl) if cname == 'Arc' else None)
+
     # ---------------------------------------------------------------- R10.2 / R10.3 Arc tables
     def arc_case(fn, args, kwargs, large=True, sweep=False):
         def th(it):
